@@ -344,7 +344,7 @@ def _config_task(task):
 def param_variants(base):
     """same group, one element re-seeded / swapped"""
     s = base.rp.seeds
-    out = [("M'", T.reseeded(base, M=s[0] + b"'")), ("N'", T.reseeded(base, N=s[1] + b"'")), ("S'", T.reseeded(base, S=s[2] + b"'")),
+    out = [("M'", T.reseeded(base, M=T.alt_seed(base, s[0]))), ("N'", T.reseeded(base, N=T.alt_seed(base, s[1]))), ("S'", T.reseeded(base, S=T.alt_seed(base, s[2]))),
            ("M<->N", T.reseeded(base, M=s[1], N=s[0]))]
     return out
 
